@@ -9,6 +9,13 @@ from .model import AnalysisError, Ctx, Target
 PRIM_TYPES = {"int", "bool", "bytes", "bytearray", "str", "float"}
 
 
+def byte_name(tag, k):
+    while isinstance(tag, tuple) and tag and tag[0] == "slice" and isinstance(tag[2], int) and tag[2] >= 0:
+        k += tag[2]
+        tag = tag[1]
+    return ("byteof", repr(tag)[:80], k)
+
+
 class StmtMixin:
     # ----------------------------------------------------- lazy heap fields
     def field_kind(self, cls, attr):
@@ -275,7 +282,14 @@ class StmtMixin:
         self.event(st, fr, "index", node, (base, idx, ln, safe))
         bt = ty_of(base)
         if bt in ("bytes", "bytearray", "byteslike"):
-            nm = st.fresh_name("byte")
+            if isinstance(base, Bytes) and len(base.parts) == 1 and isinstance(k, int) and k >= 0:
+                # the same byte of the same value is the same symbol wherever it is read (slices from 0 share their base's bytes)
+                nm = byte_name(base.parts[0][0], k)
+            else:
+                nm = st.fresh_name("byte")
+            set_ = dict(st.extra.get("symrng", {}))
+            set_.setdefault(nm, (0, 255))
+            st.extra["symrng"] = set_
             return Sym(nm, "int", rng=(0, 255), of=base, deps=frozenset(deps_of(base)))
         if isinstance(base, Ref) and base.kind == "dict":
             return Unknown(why="dict item")
